@@ -4,6 +4,7 @@ import (
 	"errors"
 	"fmt"
 	"strconv"
+	"sync"
 
 	"log/slog"
 
@@ -33,6 +34,9 @@ type API interface {
 // API
 
 type api struct {
+	// mu guards done, requests are enqueued under the read lock so that
+	// once shutdown has been requested no further request can be queued
+	mu         sync.RWMutex
 	sq         chan *bus.SQE[t_api.Request, t_api.Response]
 	buffer     *bus.SQE[t_api.Request, t_api.Response]
 	subsystems []Subsystem
@@ -95,10 +99,16 @@ func (a *api) Stop() error {
 }
 
 func (a *api) Shutdown() {
+	a.mu.Lock()
+	defer a.mu.Unlock()
+
 	a.done = true
 }
 
 func (a *api) Done() bool {
+	a.mu.RLock()
+	defer a.mu.RUnlock()
+
 	return a.done && len(a.sq) == 0
 }
 
@@ -160,6 +170,12 @@ func (a *api) EnqueueSQE(sqe *bus.SQE[t_api.Request, t_api.Response]) {
 
 		callback(res, err)
 	}
+
+	// the check and the send must happen under the lock, otherwise a
+	// request could be queued after the system has observed that the api
+	// is done and would never be answered
+	a.mu.RLock()
+	defer a.mu.RUnlock()
 
 	// we must wait to close the channel because even in a select
 	// sending to a closed channel will panic
